@@ -69,6 +69,53 @@ fn free_run<S: OgreStack<u32> + Sync + 'static>(s: &'static S, case: &Case) -> V
     out
 }
 
+/// free-running stress: T threads hammer a small stack with bursts of pushes and pops of unique values; afterwards the stack is drained
+/// by one thread. Output: [2 0 31 accepted_pushes returned(popped + drained)] [2 0 32 returned_twice never_pushed] (+ [3 tid 2] per panic)
+fn stress_run<S: OgreStack<u32> + Sync + 'static>(s: &'static S, case: &Case) -> Vec<i64> {
+    let threads = case.get("T", 6) as usize; let ops = case.get("ops", 3000) as usize; let seed = case.get("seed", 1) as u64;
+    let start = std::sync::Arc::new(std::sync::Barrier::new(threads));
+    let mut handles = vec![];
+    for tid in 0..threads {
+        let start = start.clone();
+        handles.push(std::thread::spawn(move || {
+            let mut x = seed.wrapping_mul(0x9E3779B97F4A7C15).wrapping_add(tid as u64 + 1);
+            let mut next = move || { x ^= x << 13; x ^= x >> 7; x ^= x << 17; x };
+            let (mut pushed, mut popped) = (vec![], vec![]);
+            start.wait();
+            let r = std::panic::catch_unwind(std::panic::AssertUnwindSafe(|| {
+                let mut j = 0u32;
+                while (j as usize) < ops {
+                    let burst = 1 + next() % 4; let push = next() % 2 == 0;
+                    for _ in 0..burst {
+                        if push { let v = ((tid as u32) << 20) | j; if s.push(v) { pushed.push(v); } } else if let Some(v) = s.pop() { popped.push(v); }
+                        j += 1;
+                    }
+                }
+            }));
+            (pushed, popped, r.is_err())
+        }));
+    }
+    let (mut pushed, mut returned, mut out) = (vec![], vec![], vec![]);
+    for (tid, h) in handles.into_iter().enumerate() {
+        match h.join() { Ok((a, b, p)) => { pushed.extend(a); returned.extend(b); if p { out.extend_from_slice(&[3, tid as i64, 2]); } }, Err(_) => out.extend_from_slice(&[3, tid as i64, 2]) }
+    }
+    let drained = std::panic::catch_unwind(std::panic::AssertUnwindSafe(|| { let mut d = vec![]; for _ in 0..1000 { match s.pop() { Some(v) => d.push(v), None => break } } d }));
+    match drained { Ok(d) => returned.extend(d), Err(_) => out.extend_from_slice(&[3, 99, 2]) }
+    pushed.sort(); returned.sort();
+    let twice = returned.windows(2).filter(|w| w[0] == w[1]).count();
+    let never = returned.iter().filter(|v| pushed.binary_search(v).is_err()).count();
+    out.extend_from_slice(&[2, 0, 31, pushed.len() as i64, returned.len() as i64, 2, 0, 32, twice as i64, never as i64, 9]);
+    out
+}
+fn atomic_stress_n<const N: usize>(case: &Case) -> Vec<i64> {
+    let s: &'static non_blocking_atomic_stack::Stack<u32, N, false, false> = Box::leak(Box::new(non_blocking_atomic_stack::Stack::new("s".to_string())));
+    stress_run(s, case)
+}
+fn pl_stress_n<const N: usize>(case: &Case) -> Vec<i64> {
+    let s: &'static non_blocking_parking_lot_stack::Stack<u32, N, false, false> = Box::leak(Box::new(non_blocking_parking_lot_stack::Stack::new("s".to_string())));
+    stress_run(s, case)
+}
+
 fn pl_n<const N: usize>(case: &Case) -> Vec<i64> {
     let s: &'static non_blocking_parking_lot_stack::Stack<u32, N, false, false> = Box::leak(Box::new(non_blocking_parking_lot_stack::Stack::new("s".to_string())));
     free_run(s, case)
@@ -82,6 +129,8 @@ pub fn run(case: &Case) -> Vec<i64> {
     match (case.gets("impl"), case.get("N", 4)) {
         ("atomic", 2) => atomic_n::<2>(case), ("atomic", 4) => atomic_n::<4>(case), ("atomic", 8) => atomic_n::<8>(case),
         ("parking_lot", 2) => pl_n::<2>(case), ("parking_lot", 4) => pl_n::<4>(case), ("parking_lot", 8) => pl_n::<8>(case),
+        ("atomic_stress", 2) => atomic_stress_n::<2>(case), ("atomic_stress", 4) => atomic_stress_n::<4>(case),
+        ("parking_lot_stress", 2) => pl_stress_n::<2>(case), ("parking_lot_stress", 4) => pl_stress_n::<4>(case),
         ("atomic_free", 2) => atomic_free_n::<2>(case), ("atomic_free", 4) => atomic_free_n::<4>(case), ("atomic_free", 8) => atomic_free_n::<8>(case),
         (i, n) => panic!("stack: unsupported impl={i} N={n}"),
     }
